@@ -125,6 +125,8 @@ pub struct PInner {
     pub last_key: Option<[u8; 32]>,
     /// hook invoked at every provider event (used by the thread scheduler)
     pub on_event: Option<Arc<dyn Fn() + Send + Sync>>,
+    /// behave like tower services that panic when call() is not preceded by a Ready from poll_ready()
+    pub strict: bool,
 }
 
 #[derive(Clone)]
@@ -145,6 +147,7 @@ impl Provider {
                 contract_violation: None,
                 last_key: None,
                 on_event: None,
+                strict: false,
             })),
         }
     }
@@ -154,6 +157,10 @@ impl Provider {
             g.ready_pending = ready_pending;
             g.fut_pending = fut_pending;
         }
+        self
+    }
+    pub fn strict(self) -> Self {
+        self.inner.lock().unwrap().strict = true;
         self
     }
     pub fn with_ready_err(self, e: ErrSpec) -> Self {
@@ -247,6 +254,10 @@ impl tower::Service<GetSigningKeyRequest> for Provider {
         let mut g = self.inner.lock().unwrap();
         if !g.ready_since_call {
             g.contract_violation = Some("call() without a preceding Ready from poll_ready()".into());
+            if g.strict {
+                drop(g);
+                panic!("provider: call() was called before poll_ready() returned Ready");
+            }
         }
         g.ready_since_call = false;
         g.log.push(PEv::Call(AskRec::from_req(&req)));
@@ -356,6 +367,100 @@ pub fn set_log_mode(mode: u8) {
     log::set_max_level(if mode == LOG_OFF { log::LevelFilter::Off } else { log::LevelFilter::Trace });
 }
 
+/// Like `set_log_mode`, with an explicit maximum level (records above it are not even constructed).
+pub fn set_log_mode_level(mode: u8, level: log::LevelFilter) {
+    LOG_MODE.store(mode, Ordering::SeqCst);
+    log::set_max_level(level);
+}
+
 pub fn take_captured() -> Vec<(log::Level, String, String)> {
     CAPTURE.with(|c| std::mem::take(&mut *c.borrow_mut()))
+}
+
+// ---------------------------------------------------------------------------
+// allocation hook: optional, finer-grained scheduling points for the thread explorer.
+// Every heap allocation made by a thread that registered itself becomes a scheduling point, so a
+// preemption can land between two statements that are not separated by a log record.
+
+use std::alloc::{GlobalAlloc, Layout, System};
+use std::cell::Cell;
+
+thread_local! {
+    static ALLOC_TID: Cell<usize> = const { Cell::new(usize::MAX) };
+    static ALLOC_SCHED: Cell<*const crate::sched::Sched> = const { Cell::new(std::ptr::null()) };
+    static IN_ALLOC_HOOK: Cell<bool> = const { Cell::new(false) };
+    pub static ALLOC_POINTS_SEEN: Cell<u64> = const { Cell::new(0) };
+}
+
+pub struct HookAlloc;
+
+#[inline]
+fn alloc_hook() {
+    let _ = ALLOC_TID.try_with(|t| {
+        let tid = t.get();
+        if tid == usize::MAX {
+            return;
+        }
+        let _ = IN_ALLOC_HOOK.try_with(|h| {
+            if h.get() {
+                return;
+            }
+            h.set(true);
+            let s = ALLOC_SCHED.with(|s| s.get());
+            if !s.is_null() {
+                ALLOC_POINTS_SEEN.with(|c| c.set(c.get() + 1));
+                // SAFETY: the scheduler outlives the registration (cleared before the thread body returns)
+                unsafe { (*s).point(tid) };
+            }
+            h.set(false);
+        });
+    });
+}
+
+unsafe impl GlobalAlloc for HookAlloc {
+    unsafe fn alloc(&self, l: Layout) -> *mut u8 {
+        let p = System.alloc(l);
+        alloc_hook();
+        p
+    }
+    unsafe fn dealloc(&self, p: *mut u8, l: Layout) {
+        System.dealloc(p, l)
+    }
+    unsafe fn alloc_zeroed(&self, l: Layout) -> *mut u8 {
+        let p = System.alloc_zeroed(l);
+        alloc_hook();
+        p
+    }
+    unsafe fn realloc(&self, p: *mut u8, l: Layout, n: usize) -> *mut u8 {
+        let q = System.realloc(p, l, n);
+        alloc_hook();
+        q
+    }
+}
+
+/// Guard: while it lives, allocations of this thread are not scheduling points (used by the scheduler itself,
+/// which allocates while holding its own lock).
+pub struct NoAllocPoints(bool);
+
+pub fn no_alloc_points() -> NoAllocPoints {
+    let prev = IN_ALLOC_HOOK.try_with(|h| h.replace(true)).unwrap_or(true);
+    NoAllocPoints(prev)
+}
+
+impl Drop for NoAllocPoints {
+    fn drop(&mut self) {
+        let prev = self.0;
+        let _ = IN_ALLOC_HOOK.try_with(|h| h.set(prev));
+    }
+}
+
+/// Make every allocation of the calling thread a scheduling point of `sched` (as thread `tid`).
+pub fn register_alloc_points(tid: usize, sched: &std::sync::Arc<crate::sched::Sched>) {
+    ALLOC_SCHED.with(|s| s.set(std::sync::Arc::as_ptr(sched)));
+    ALLOC_TID.with(|t| t.set(tid));
+}
+
+pub fn unregister_alloc_points() {
+    ALLOC_TID.with(|t| t.set(usize::MAX));
+    ALLOC_SCHED.with(|s| s.set(std::ptr::null()));
 }
